@@ -71,6 +71,7 @@ class Ctx:
         self.max_time = max_time
         self.conc_cap = conc_cap
         self.max_steps = max_steps
+        self.max_path_time = 90
         self.stats = dict(paths=0, solver_calls=0, solver_time=0.0,
                           branches=0, checks=0, discharged=0, forks=0,
                           pruned=0, trivially_true=0)
@@ -90,6 +91,7 @@ class Ctx:
         self.violations = []
         self.path_reached = set()
         self.steps = 0
+        self.path_t0 = _time.time()
         self.solver.push()
 
     def end(self):
@@ -154,6 +156,10 @@ class Ctx:
         if self.steps > self.max_steps:
             raise StepBudget("more than %d decisions on one path"
                              % self.max_steps)
+        if self.steps % 256 == 0 and \
+                _time.time() - self.path_t0 > self.max_path_time:
+            raise StepBudget("one path runs longer than %d s (%d decisions)"
+                             % (self.max_path_time, self.steps))
 
     def branch(self, cond, tag=None):
         """cond: z3 BoolRef. returns python bool, registers alternative."""
@@ -819,6 +825,21 @@ class MonoFloat(object):
 
     def __bool__(self):
         return bool(self != 0.0)
+
+    def __rtruediv__(self, o):
+        return o / float(self)
+
+    def __rsub__(self, o):
+        return o - float(self)
+
+    def __neg__(self):
+        return -float(self)
+
+    def __pow__(self, o):
+        return float(self) ** o
+
+    def __rpow__(self, o):
+        return o ** float(self)
 
     def __format__(self, spec):
         return "<monofloat>"
